@@ -421,10 +421,21 @@ sqf::runtime::runtime::result sqf::runtime::runtime::execute(sqf::runtime::runti
                     }
                     if (m_context_active->suspended())
                     {
-                        if (m_context_active->wakeup_timestamp() <= std::chrono::system_clock::now())
+                        auto now = std::chrono::system_clock::now();
+                        if (m_context_active->wakeup_timestamp() <= now)
                         {
                             m_context_active->unsuspend();
                             res = execute_do(*this, 150);
+                        }
+                        else if (configuration().max_runtime != std::chrono::milliseconds::zero() &&
+                            configuration().max_runtime + m_run_timestamp < now)
+                        { // a script that sleeps executes no instruction: the time limit of the run holds for it too
+                            __logmsg(logmessage::runtime::MaximumRuntimeReached(
+                                m_context_active->empty() ? sqf::runtime::diagnostics::diag_info{} : m_context_active->current_frame().diag_info_from_position(),
+                                configuration().max_runtime));
+                            m_runtime_error = false;
+                            exit(0);
+                            res = result::runtime_error;
                         }
                         else
                         {
